@@ -213,6 +213,21 @@ pub fn digest_event_split(out: &mut dyn std::io::Write, alg: &str, n: usize, msg
             h.upd(msg);
             return h.fin_reset_how(msg.len() / 3);
         }
+        if split & 0x4000_0000 != 0 && split < usize::MAX - 8 {
+            // three (or more) pieces: p bytes, then exactly what completes the buffered block plus k whole blocks, then the rest
+            let b = block_size(alg);
+            let p = 1 + (split & 0xffff) % (b - 1);
+            let second = (b - p) + b * ((split >> 16) & 3);
+            if msg.len() > p + second {
+                h.upd(&msg[..p]);
+                h.upd(&msg[p..p + second]);
+                let rest = &msg[p + second..];
+                let cut = rest.len() / 2;
+                h.upd(&rest[..cut]);
+                h.upd(&rest[cut..]);
+                return h.fin();
+            }
+        }
         if split == 0 || msg.len() < 2 {
             h.upd(msg);
         } else {
@@ -295,7 +310,8 @@ pub fn drive_digests(out: &mut dyn std::io::Write, family: &str, seed: u64, thor
             let m = message(&mut rng, l, (li + ai) as u64);
             // two thirds of the sweep feed the message in one call, one third in two pieces cut at a pseudo-random point
             let split = match (li + ai) % 9 {
-                2 | 5 => 1 + rng.below(0xffff) as usize,
+                2 => 1 + rng.below(0xffff) as usize,
+                5 => 0x4000_0000 | rng.below(0x3_ffff) as usize,
                 8 => usize::MAX,
                 7 => usize::MAX - 1,
                 4 => usize::MAX - 2,
@@ -422,7 +438,7 @@ pub fn drive_digests(out: &mut dyn std::io::Write, family: &str, seed: u64, thor
             let l = 3 * b + rng.below((if thorough { 12 } else { 4 }) * b as u64) as usize;
             let n = ns[k % ns.len()];
             let m = rng.bytes(l);
-            let split = if k % 2 == 1 { 1 + rng.below(0xffff) as usize } else { 0 };
+            let split = if k % 2 == 1 { 0x4000_0000 | rng.below(0x3_ffff) as usize } else { 0 };
             digest_event_split(out, alg, n, &m, "long", cfg, split);
         }
     }
